@@ -7,6 +7,7 @@ import itertools
 
 import numpy as np
 
+from rv.core import calling
 from rv.core.tolerances import F32_TOL
 from rv.gen import graphs
 
@@ -96,6 +97,12 @@ def judge_encoding(ctx, U, vocab_idx, list_idx, scores):
     got_p = np.asarray(E.prediction_encoding(ptags, enc))
     if got_p.shape != want_p.shape or np.abs(got_p - want_p).max(initial=0) > F32_TOL:
         ctx.violate("prediction_scores", "prediction_scores", observed=got_p.tolist(), expected=want_p.tolist(), spec=spec)
+    if ctx.every(spec, 5):
+        calling.agree(ctx, "classification_encoding", E.classification_encoding, dict(tags=tags, encoder=enc), spec, variants={"tuple_of_tags": {"tags": tuple(tags)}})
+        calling.agree(ctx, "multilabel_encoding", E.multilabel_encoding, dict(tags=tags, encoder=enc), spec, same=lambda x, y: np.array_equal(np.asarray(x), np.asarray(y)),
+                      variants={"tuple_of_tags": {"tags": tuple(tags)}})
+        calling.agree(ctx, "prediction_encoding", E.prediction_encoding, dict(tags=ptags, encoder=enc), spec, same=lambda x, y: np.array_equal(np.asarray(x), np.asarray(y)),
+                      variants={"tuple_of_tags": {"tags": tuple(ptags)}})
     # the caller owns the returned vectors: it edits them in place, builds an encoder for another vocabulary in between,
     # and encodes equal lists again with the first encoder
     if ctx.every(spec, 4):
